@@ -13,6 +13,7 @@ import CBV.Lemmas.C14Box
 import CBV.Lemmas.C14Quad
 import CBV.Lemmas.C14Grid
 import CBV.Lemmas.C14Guard
+import CBV.Lemmas.C14Post
 import CBV.Gen.TC14
 
 namespace CBV.C14
@@ -303,8 +304,8 @@ theorem T_C14_box (a b c : Rat) (ha : 0 < a) (hb : 0 < b) (hc : 0 < c) :
 /-- Stretching the cube of side `L` by the factor `s ≥ 1` along any one of its three directions gives the
     same scale-free signature whichever direction is chosen: the cube's angle entries and the aspect
     entry `s²` — which does not decrease when `s` grows; hence equal idealised values for the three
-    directions.  (That the float post-processing `3·3^(2.5·log10 √s²) - 3` is increasing in `s` is not
-    proved; the oracle checks it on the implementation.) -/
+    directions.  (That the value then does not decrease is `T_C14_stretch_value` / `T_C14_stretch_aspect_term`: for every
+    aspect term that is monotone, in particular `q_scale₂ ∘ log10 ∘ √` with the regenerated constants.) -/
 theorem T_C14_stretch (L s : Rat) (hL : 0 < L) (hs : 1 ≤ s) :
     let cube := ⟨List.replicate 24 ⟨1, 1⟩, List.replicate 24 ⟨0, 0⟩, s * s⟩
     (sigHex (box (s * L) L L) (fun _ => none)).norm = cube ∧
@@ -581,5 +582,119 @@ theorem T_C14_qscale_model (quad : Bool) (eps : Float) (s : Sig) :
         (if quad then ratToFloat t.nc / (Float.sqrt (ratToFloat t.nn) * Float.sqrt (ratToFloat t.cc))
          else ratToFloat t.nc / ((Float.sqrt (ratToFloat t.nn) + eps) * (Float.sqrt (ratToFloat t.cc) + eps))) - 90.0)))) +
       qScaleWith (qsAt 2) (Float.log10 (Float.sqrt (ratToFloat (maxL s.edges)) / (Float.sqrt (ratToFloat (minL s.edges)) + eps))) := rfl
+
+/-! ### the float post-processing as an abstract contract -/
+
+/-- **The guard bounds transfer to the value** for every Lipschitz post-processing.  `tris`, `corners`: the entries
+    `(n·c, |n|, |c|)` resp. `(s₁·s₂, |s₁|, |s₂|)` of the unscaled cell with positive norms and `|n·c| ≤ |n||c|`; `smax`, `smin`
+    its longest / shortest edge; `A`, `B`, `C` the three term functions (in the code `q_scale ∘ deg ∘ acos`,
+    `q_scale ∘ |deg ∘ acos − 90|`, `q_scale ∘ log10`), assumed `L`-Lipschitz on the arguments.  Then the value the code forms
+    for the cell scaled by `k > 0` *with* the guard `e` differs from the guard-free, scale-free value by at most
+    `L·(Σ e/(k²|n|) + Σ (e/(k|s₁|) + e/(k|s₂|)) + (smax/smin)·e/(k·smin))` — explicit, and `O(1/k)`. -/
+theorem T_C14_guard_value (A B C : Rat → Rat) (L : Rat) (hL0 : 0 ≤ L)
+    (hA : ∀ x y, |A x - A y| ≤ L * |x - y|) (hB : ∀ x y, |B x - B y| ≤ L * |x - y|)
+    (hC : ∀ x y, |C x - C y| ≤ L * |x - y|)
+    (tris corners : List (Rat × Rat × Rat))
+    (ht : ∀ t ∈ tris, 0 < t.2.1 ∧ 0 < t.2.2 ∧ |t.1| ≤ t.2.1 * t.2.2)
+    (hc : ∀ t ∈ corners, 0 < t.2.1 ∧ 0 < t.2.2 ∧ |t.1| ≤ t.2.1 * t.2.2)
+    (smax smin e k : Rat) (hmax : 0 ≤ smax) (hmin : 0 < smin) (he : 0 ≤ e) (hk : 0 < k) :
+    |valueOf A B C (tris.map (fun t => gcos (k * k * k * t.1) (k * k * t.2.1) (k * t.2.2) e))
+        (corners.map (fun t => gcorner (k * k * t.1) (k * t.2.1) (k * t.2.2) e)) (gaspect (k * smax) (k * smin) e)
+      - valueOf A B C (tris.map (fun t => gcos t.1 t.2.1 t.2.2 0)) (corners.map (fun t => gcorner t.1 t.2.1 t.2.2 0))
+        (gaspect smax smin 0)|
+      ≤ L * ((tris.map (fun t => e / (k * k * t.2.1))).sum
+             + (corners.map (fun t => e / (k * t.2.1) + e / (k * t.2.2))).sum
+             + gaspect smax smin 0 * (e / (k * smin))) := by
+  have h := value_lipschitz A B C L hL0 hA hB hC
+    (tris.map (fun t => (gcos (k * k * k * t.1) (k * k * t.2.1) (k * t.2.2) e, gcos t.1 t.2.1 t.2.2 0, e / (k * k * t.2.1))))
+    (corners.map (fun t => (gcorner (k * k * t.1) (k * t.2.1) (k * t.2.2) e, gcorner t.1 t.2.1 t.2.2 0,
+      e / (k * t.2.1) + e / (k * t.2.2))))
+    (gaspect (k * smax) (k * smin) e) (gaspect smax smin 0) (gaspect smax smin 0 * (e / (k * smin)))
+    (by
+      intro t' ht'
+      obtain ⟨t, htm, rfl⟩ := List.mem_map.mp ht'
+      obtain ⟨h1, h2, h3⟩ := ht t htm
+      exact (T_C14_guard_scale t.1 t.2.1 t.2.2 e k hk h1 h2 he h3).1)
+    (by
+      intro t' ht'
+      obtain ⟨t, htm, rfl⟩ := List.mem_map.mp ht'
+      obtain ⟨h1, h2, h3⟩ := hc t htm
+      exact (T_C14_guard_scale t.1 t.2.1 t.2.2 e k hk h1 h2 he h3).2.1)
+    (by
+      have h := (T_C14_guard_scale (0 : Rat) smin 1 e k hk hmin one_pos he (by simp; positivity)).2.2 smax hmax
+      rw [abs_le]; constructor <;> linarith [h.1, h.2])
+  simpa only [List.map_map, Function.comp_def] using h
+
+/-- non-vacuity of the contract: the identity is 1-Lipschitz; one triangle `(1/4, 1/2, 1/2)` (a cube face), no corner -/
+example : (∀ x y : Rat, |id x - id y| ≤ 1 * |x - y|) ∧
+    (∀ t ∈ [((1 / 4 : Rat), (1 / 2 : Rat), (1 / 2 : Rat))], 0 < t.2.1 ∧ 0 < t.2.2 ∧ |t.1| ≤ t.2.1 * t.2.2) := by
+  refine ⟨fun x y => by simp, ?_⟩
+  intro t ht; simp only [List.mem_singleton] at ht; subst ht; norm_num [abs_le]
+
+/-- **The stretch clause for every monotone post-processing.**  For arbitrary term functions `A`, `B` on the (sign,
+    squared cosine) entries and every aspect term `C` that is non-decreasing on `[1, ∞)`: stretching the cube of side
+    `L` by `s ≥ 1` gives the same value whichever of the three directions is stretched, and a longer stretch `s' ≥ s`
+    never gives a smaller value. -/
+theorem T_C14_stretch_value (A B : Tri0 → Rat) (C : Rat → Rat) (hC : ∀ x y, 1 ≤ x → x ≤ y → C x ≤ C y)
+    (L s s' : Rat) (hL : 0 < L) (hs : 1 ≤ s) (hss : s ≤ s') :
+    value0 A B C (sigHex (box (s * L) L L) (fun _ => none)).norm = value0 A B C (sigHex (box L (s * L) L) (fun _ => none)).norm ∧
+    value0 A B C (sigHex (box (s * L) L L) (fun _ => none)).norm = value0 A B C (sigHex (box L L (s * L)) (fun _ => none)).norm ∧
+    value0 A B C (sigHex (box (s * L) L L) (fun _ => none)).norm ≤ value0 A B C (sigHex (box (s' * L) L L) (fun _ => none)).norm := by
+  have h1 := T_C14_stretch L s hL hs
+  have h2 := T_C14_stretch L s' hL (hs.trans hss)
+  simp only at h1 h2
+  rw [h1.1, h1.2.1, h1.2.2.1, h2.1]
+  refine ⟨rfl, rfl, ?_⟩
+  unfold value0
+  simp only
+  have hs0 : 0 ≤ s := by linarith
+  have : C (s * s) ≤ C (s' * s') := hC _ _ (by nlinarith) (by nlinarith)
+  linarith
+
+/-- **Each term of the measure is monotone, with the regenerated constants**: for every power function that is
+    non-decreasing in its exponent for bases above 1 (as the real `b ^ x` is), each of the three `q_scale` terms
+    `x ↦ factor·pw base (exponent·x) − factor` — with `(base, exponent, factor)` read off the current source
+    (`c14QScale`, `T_C14_qscale_tie`) — is non-decreasing in `x`. -/
+theorem T_C14_qscale_monotone (pw : Rat → Rat → Rat) (hpw : ∀ b, 1 < b → ∀ x y, x ≤ y → pw b x ≤ pw b y)
+    (t : List (Int × Nat)) (ht : t ∈ CBV.Gen.c14QScale) (b e f : Int × Nat) (h : t = [b, e, f]) (x y : Rat) (hxy : x ≤ y) :
+    qterm pw (mkRat b.1 b.2) (mkRat e.1 e.2) (mkRat f.1 f.2) x ≤ qterm pw (mkRat b.1 b.2) (mkRat e.1 e.2) (mkRat f.1 f.2) y := by
+  obtain ⟨hb, he, hf⟩ := T_C14_qscale_tie.2.1 t ht b e f h
+  exact qterm_mono pw hpw _ _ _ hb he hf x y hxy
+
+/-- … and so the stretch clause holds for the aspect term the code actually uses: `q_scale₂ ∘ lg` with the third
+    regenerated constant triple, for every power function monotone in the exponent and every `lg` non-decreasing on
+    `[1, ∞)` (as `x ↦ log10 √x` is), whatever the angle terms are. -/
+theorem T_C14_stretch_aspect_term (pw : Rat → Rat → Rat) (hpw : ∀ b, 1 < b → ∀ x y, x ≤ y → pw b x ≤ pw b y)
+    (lg : Rat → Rat) (hlg : ∀ x y, 1 ≤ x → x ≤ y → lg x ≤ lg y)
+    (b e f : Int × Nat) (h2 : CBV.Gen.c14QScale[2]? = some [b, e, f])
+    (A B : Tri0 → Rat) (L s s' : Rat) (hL : 0 < L) (hs : 1 ≤ s) (hss : s ≤ s') :
+    let C := fun a2 => qterm pw (mkRat b.1 b.2) (mkRat e.1 e.2) (mkRat f.1 f.2) (lg a2)
+    value0 A B C (sigHex (box (s * L) L L) (fun _ => none)).norm = value0 A B C (sigHex (box L (s * L) L) (fun _ => none)).norm ∧
+    value0 A B C (sigHex (box (s * L) L L) (fun _ => none)).norm = value0 A B C (sigHex (box L L (s * L)) (fun _ => none)).norm ∧
+    value0 A B C (sigHex (box (s * L) L L) (fun _ => none)).norm ≤ value0 A B C (sigHex (box (s' * L) L L) (fun _ => none)).norm := by
+  intro C
+  apply T_C14_stretch_value A B C _ L s s' hL hs hss
+  intro x y hx hxy
+  exact T_C14_qscale_monotone pw hpw _ (List.mem_of_getElem? h2) b e f rfl _ _ (hlg x y hx hxy)
+
+/-- non-vacuity: the third regenerated triple is `(3, 5/2, 3)`; `pw b x := b·x` is monotone in `x` for `b > 1` -/
+example : CBV.Gen.c14QScale[2]? = some [(3, 1), (5, 2), (3, 1)] ∧
+    (∀ b : Rat, 1 < b → ∀ x y, x ≤ y → b * x ≤ b * y) :=
+  ⟨by decide, fun b hb x y h => mul_le_mul_of_nonneg_left h (by linarith)⟩
+
+/-- the same for a square stretched into a rectangle (quad cell), for every monotone aspect term -/
+theorem T_C14_stretch_value_quad (A B : Tri0 → Rat) (C : Rat → Rat) (hC : ∀ x y, 1 ≤ x → x ≤ y → C x ≤ C y)
+    (L s s' : Rat) (hL : 0 < L) (hs : 1 ≤ s) (hss : s ≤ s') :
+    value0 A B C (sigQuad (rect (s * L) L) (fun _ => none)).norm = value0 A B C (sigQuad (rect L (s * L)) (fun _ => none)).norm ∧
+    value0 A B C (sigQuad (rect (s * L) L) (fun _ => none)).norm ≤ value0 A B C (sigQuad (rect (s' * L) L) (fun _ => none)).norm := by
+  have h1 := T_C14_stretch_quad L s hL hs
+  have h2 := T_C14_stretch_quad L s' hL (hs.trans hss)
+  simp only at h1 h2
+  rw [h1.1, h1.2.1, h2.1]
+  refine ⟨rfl, ?_⟩
+  unfold value0
+  simp only
+  have : C (s * s) ≤ C (s' * s') := hC _ _ (by nlinarith) (by nlinarith)
+  linarith
 
 end CBV.C14
